@@ -610,9 +610,19 @@ pub fn check_plan(ctx: &mut Ctx, inst: &Instance, out: &DispatchOutcome, nets: &
     let ntr = inst.trains.len();
     // ---------------- C05: outcome
     let plan = match &out.result {
+        Err(p) if panics::is_debug_assert_site(p) && !p.message.contains("was placed past the back of train") => {
+            // any other of the crate's own debug assertions: in the checked build the dispatcher's bookkeeping
+            // contradicts itself (C05 speaks about aborts of a checked build too); the as-shipped build runs the
+            // same case and is judged on its own
+            let loc = p.location.rsplit('/').next().unwrap_or("").to_string();
+            emit(ctx, "C05", "no_abort", &format!("C05:crate_debug_assert:{loc}"), format!("run_dispatch tripped the crate's own debug assertion: {} at {}", p.message.chars().take(200).collect::<String>(), p.location), info.clone());
+            obs(ctx, "C05", "obs.crate_debug_assert_trips(other_sites)");
+            return stats;
+        }
         Err(p) if panics::is_debug_assert_site(p) => {
-            // the developers' own debug-build monitor tripped (e.g. exact float comparison of offsets);
-            // recorded, judged by the as-shipped build which runs the same case
+            // the one debug assertion that compares two floating-point sums exactly ("front of train ... placed past the
+            // back of train ..."): trips on sub-micrometre rounding on correct plans; recorded, judged by the as-shipped
+            // build which runs the same case
             obs(ctx, "C05", "obs.crate_debug_assert_trips(record_only)");
             if ctx.prop == "C05" {
                 ctx.rep.diag(json!({"case": ctx.case, "crate_debug_assert": p.message.chars().take(160).collect::<String>(), "at": p.location}));
